@@ -321,6 +321,8 @@ def config_data(cfg):
     r = pyrandom.Random(cfg["data_seed"])
     series = [make_series(r, L, cfg["N"], regimes=cfg.get("regimes", 3), scale=cfg.get("scale", 1.0),
                           seg=(8, 30)) for L in cfg["lens"]]
+    if cfg.get("data_factor"):
+        series = [s_ * cfg["data_factor"] for s_ in series]
     shift = cfg.get("shift")
     if shift is not None:
         series = [s + np.asarray(shift, dtype=float) for s in series]
@@ -380,3 +382,38 @@ def execute(cfg, trace=True, **trace_kw):
         except Exception as e:       # a run that does not complete is outside the conditional clauses
             err = e
     return res, tr, err, series
+
+
+# --------------------------------------------------------------------------- fresh-process reference
+_FRESH = r"""
+import sys, json, os, hashlib
+os.environ["NUMBA_DISABLE_JIT"] = "1"
+sys.path.insert(0, sys.argv[1]); sys.path.insert(0, os.path.join(sys.argv[2], "src"))
+import ticc_util as tu, fast_ticc
+cfg = json.loads(sys.argv[3])
+series = tu.config_data(cfg)
+tu.seed_all(cfg["seed"])
+with tu.quiet():
+    r = fast_ticc.ticc_joint_labels(series, **tu.config_kwargs(cfg)) if cfg["joint"] else fast_ticc.ticc_labels(series[0], **tu.config_kwargs(cfg))
+print("DIGEST " + tu.digest(r))
+"""
+
+
+def digest(res):
+    import hashlib
+    f = result_fields(res)
+    return hashlib.sha1(repr(sorted((k, repr(v)) for k, v in f.items())).encode()).hexdigest()
+
+
+def fresh_digest(cfg, repo):
+    """the same call in a fresh interpreter (real pool, nothing called before it)."""
+    import json as _json
+    import os as _os
+    import subprocess as _sp
+    import sys as _sys
+    here = _os.path.dirname(_os.path.abspath(__file__))
+    p = _sp.run([_sys.executable, "-c", _FRESH, here, repo, _json.dumps(cfg)], capture_output=True, text=True, timeout=600)
+    for line in p.stdout.splitlines():
+        if line.startswith("DIGEST "):
+            return line[7:].strip()
+    raise RuntimeError("fresh-process reference failed: " + p.stderr[-400:])
